@@ -186,29 +186,64 @@ def _if_chain(i: ast.If):
 
 
 def increase_decrease_twins(rep: Report, rule: str, funcs: List[FuncInfo]) -> int:
-    """An `if e.is_increase(): … elif e.is_decrease(): …` pair treats the two kinds of numeric update symmetrically:
-    the decrease branch reads the same operands as the increase branch (only the operator differs)."""
+    """Where a function treats `e.is_increase()` and `e.is_decrease()` separately, the statements executed only for a
+    decrease read the same operands as those executed only for an increase (only the operator differs). Decided on
+    path facts, so `if … elif e.is_decrease(): … else: raise` and `if not e.is_decrease(): raise` + fall-through are
+    the same code; the pairs of different loops are kept apart."""
+    from ..rules2 import path_facts
+
     n = 0
     for f in funcs:
-        inner = set()
-        for i in walk_no_nested(f.node):
-            if not isinstance(i, ast.If) or id(i) in inner:
+        if not any(isinstance(c, ast.Call) and isinstance(c.func, ast.Attribute) and c.func.attr == "is_decrease" for c in walk_no_nested(f.node)):
+            continue
+        cfg = cfg_of(f)
+        loops = [l for l in walk_no_nested(f.node) if isinstance(l, (ast.For, ast.While))]
+
+        def region(a: ast.AST) -> int:
+            inner = [l for l in loops if any(x is a for x in ast.walk(l))]
+            return max((l.lineno for l in inner), default=0)
+
+        groups: Dict[Tuple[str, int], Dict[str, list]] = {}
+        for nd in cfg.nodes:
+            if nd.ast is None or nd.kind not in ("stmt", "return", "raise", "test"):
                 continue
-            ch = _if_chain(i)
-            x = i
-            while len(x.orelse) == 1 and isinstance(x.orelse[0], ast.If):
-                x = x.orelse[0]
-                inner.add(id(x))
-            def q(t, name):
-                return isinstance(t, ast.Call) and isinstance(t.func, ast.Attribute) and t.func.attr == name and not t.args
-            inc = [(t, b) for t, b in ch if q(t, "is_increase")]
-            dec = [(t, b) for t, b in ch if q(t, "is_decrease")]
-            if not inc or not dec or norm(inc[0][0].func.value) != norm(dec[0][0].func.value):
+            for txt, val in path_facts(cfg, nd):
+                if val and txt.endswith((".is_increase()", ".is_decrease()")):
+                    recv, kind = txt.rsplit(".", 1)
+                    groups.setdefault((recv, region(nd.ast)), {}).setdefault(kind, []).append(nd)
+        for (recv, reg), g in sorted(groups.items()):
+            inc, dec = g.get("is_increase()", []), g.get("is_decrease()", [])
+            if not inc or not dec:
+                continue
+            # code reachable from the other kind's statements is common code, not part of the pair
+            heads = {h for h in cfg.nodes if h.kind == "for" or (h.kind == "test" and isinstance(getattr(h, "owner", None), ast.While))}
+
+            def same_iteration(srcs):
+                seen, todo = set(), list(srcs)
+                while todo:
+                    x = todo.pop()
+                    for y in cfg.g.successors(x):
+                        if y not in seen and y not in heads:
+                            seen.add(y)
+                            todo.append(y)
+                return seen
+
+            reach_inc = same_iteration(inc)
+            reach_dec = same_iteration(dec)
+            inc_only = [x for x in inc if x not in reach_dec]
+            dec_only = [x for x in dec if x not in reach_inc]
+            if not inc_only or not dec_only:
                 continue
             n += 1
-            a, b = _read_paths(inc[0][1]), _read_paths(dec[0][1])
+            def temps(nds):
+                return {t.id for x in nds for t in ast.walk(x.ast) if isinstance(t, ast.Name) and isinstance(t.ctx, ast.Store)}
+
+            # a temporary introduced inside one side (`previous = subs[f]; … Minus(previous, v)`) is not an operand
+            a = _read_paths([x.ast for x in inc_only]) - temps(inc_only)
+            b = _read_paths([x.ast for x in dec_only]) - temps(dec_only)
             ok = a == b
-            rep.check(ok, rule, f"the decrease branch of the update of `{norm(inc[0][0].func.value)}` reads what the increase branch reads", f.loc(dec[0][0]), construct=f"{norm(inc[0][0])} / {norm(dec[0][0])}: " + ("same operands" if ok else f"only one side reads {sorted(a ^ b)}"), detail="" if ok else "the two kinds of numeric update are compiled from different operands: one of them drops what the other accumulates (an earlier update of the same fluent, a condition, a timing), so a plan whose durative action both increases and decreases a fluent is converted for one kind and corrupted for the other", function=f.qualname)
+            first = min(dec_only, key=lambda x: getattr(x.ast, "lineno", 0))
+            rep.check(ok, rule, f"what is done for a decrease of `{recv}` reads what is done for an increase reads", f.loc(first.ast), construct=f"{recv}.is_increase() / {recv}.is_decrease(): " + ("same operands" if ok else f"only one side reads {sorted(a ^ b)}"), detail="" if ok else "the two kinds of numeric update are compiled from different operands: one of them drops what the other accumulates (an earlier update of the same fluent, a condition, a timing), so a plan whose durative action both increases and decreases a fluent is converted for one kind and corrupted for the other", function=f.qualname)
     return n
 
 
